@@ -242,7 +242,7 @@ def _gen_job(job):
         return dict(ok=False, name=cname, case_idx=case_idx, error='%s: %s' % (type(e).__name__, e))
 
 
-def generate_parallel(program, cnames, procs=16):
+def generate_parallel(program, cnames, procs=16, bind_errors=None):
     """One job per (function, contract case); returns FuncReports whose obligations are ObText."""
     import multiprocessing as mp
     global _PROGRAM
@@ -265,9 +265,15 @@ def generate_parallel(program, cnames, procs=16):
             pool.join()
     reports = {}
     vac = []
+    failed = {}
     for o in outs:
         if not o['ok']:
-            raise CannotBind(o['error'])
+            if bind_errors is None:
+                raise CannotBind(o['error'])
+            # a contract that does not fit the (changed) code: that function is not verified, the rest of the check goes on
+            # (other functions, run-time sweep, bounded sweeps); the check cannot exit 0 (check.py: run.errors)
+            failed[o.get('name') or '?'] = o['error']
+            continue
         rep = reports.get(o['name'])
         if rep is None:
             rep = reports[o['name']] = FuncReport(o['name'])
@@ -281,4 +287,8 @@ def generate_parallel(program, cnames, procs=16):
         rep.lines_all |= set(o.get('lines_all', ()))
         rep.covers['branches@%d' % o['case_idx']] = o['covers']
         vac += o['vacuity']
-    return [reports[n] for n in cnames], vac
+    if bind_errors is not None:
+        bind_errors.update(failed)
+        for n in failed:
+            reports.pop(n, None)
+    return [reports[n] for n in cnames if n in reports], vac
